@@ -75,13 +75,18 @@ CLAIMED['C06'] = dict(
          'finding F6 is its boundary witness).',
     technique='Lean 4 proof (permutation invariance via sorted-permutation uniqueness) + bit-exact differential correspondence')
 CLAIMED['C07'] = dict(
-    text='PARTIAL. Machine-checked so far: the pre-image collisions that exist for every hasher (strings spelling a serialisation, repeats in the ordered mode, '
-         'apply_hash=False framing) as Lean theorems, one positive tag lemma, and the bit-exact model correspondence. The injectivity theorem itself (injective hasher, hex digests, '
-         'NoSpoof, NoNumAlias => equal hashes only for equivalent values) is stated in DESIGN but not yet proved; inside that domain the property is decided by evaluation: '
-         'all pairs of a near-collision pool x 3 modes against an independent reference equivalence.',
+    text='Lean 4 theorem (set and multiset modes, i.e. order ignored, the default): for every injective hasher whose digests are non-empty and free of the framing characters , | : ; '
+         '(hex digests are), inside NoSpoof (no str leaf spelling a serialisation), with canonical floats and scalar dictionary keys on which == is identity (NoNumAlias), two values of any '
+         'size and nesting with equal digests are equivalent: same type; lists / tuples with the same set of item digests (same multiplicities when repetition counts); sets with the same '
+         'member digests; dictionaries with the same keys and, recursively, equivalent values; equal scalars (C07_equal_digests_equivalent, C07_different_content_differs, '
+         'C07_scalar_injective, C07_list_members). The proof is the unique decodability of the framing (joinWith_inj, append_sep_str_inj), the injectivity of int / float rendering '
+         '(reprInj is proved, not assumed) and a one-entry-per-digest invariant of the item table. The hypotheses on the hasher are shown satisfiable (escH). Negative witnesses as '
+         'theorems for what the domain excludes: strings spelling a serialisation (F5), repeats in the ordered mode (F7), apply_hash=False framing. PARTIAL: the ordered mode '
+         '(ignore_iterable_order=False) has no positive theorem; there and for datetimes / numpy / objects the property is decided by evaluation (all pairs of a near-collision pool x 3 modes '
+         'against an independent reference equivalence). The model is tied to the code by bit-exact digest comparison (own SHA-256).',
     design='5/C07',
-    note='Trusted: Lean kernel; SHA-256 collision freedom. The positive claim rests on evaluation until C07_injective is proved. Known findings F5a-d, F7.',
-    technique='Lean 4 negative-witness theorems + bit-exact correspondence; positive direction by exhaustive pairing of a near-collision pool')
+    note='Trusted: Lean kernel; SHA-256 collision freedom (the theorem assumes an injective hasher). Ordered mode: evaluation only. Known findings F5a-e, F7.',
+    technique='Lean 4 proof (unique decodability of the hash framing, mutual structural induction) + negative-witness theorems + bit-exact correspondence + near-collision pool')
 _DIFFMODEL = ('Model = Lean port of DeepDiff._diff and its _diff_* family (dispatch, dict key sets and threshold shortcut, difflib pass vs pairwise pass, moved items, '
               'set diff by DeepHash, add/remove fold) plus TextResult; tied to the code on every run by comparing the complete text view and the recorded opcodes of the real '
               'DeepDiff with the compiled model (own difflib port and SHA-256) over generated pairs. ')
@@ -183,11 +188,11 @@ CLAIMED['C05'] = dict(
          'threshold in [0,1], size and nesting, the ignore-order result is empty exactly when the pairing-free verdict holds (dicts key by key, lists/tuples by the set of item hashes - '
          'and equal multiplicities with report_repetition -, sets by member hashes, leaves by type and value); corollary: the emptiness verdict is knob independent. The only property '
          'of the item hash used is HashSound (values the diff cannot tell apart hash equally), which is proved for the DeepHash model for every hasher (C05_verdict_deephash); no injectivity. ' + _IOMODEL + 'Tied to the code by comparing the complete result of '
-         'the real DeepDiff with the compiled model over shuffles, duplications, near-duplicates and edits at every depth x the knob grid. That the hash-level verdict coincides with '
-         'nested set / multiset equality of the values (needs injectivity of the hash framing, C07) is decided on the implementation against an independent reference equality.',
+         'the real DeepDiff with the compiled model over shuffles, duplications, near-duplicates and edits at every depth x the knob grid. That the hash-level verdict is '
+         'nested set / multiset equality of the items up to the verdict is a theorem too (C05_list_is_nested_set_equality in Properties/C12.lean, from the injectivity of the hash framing, C07); on the implementation it is decided against an independent reference equality.',
     design='5/C05',
     note='Trusted: Lean kernel; pairing observed, not modelled. The semantic reading '
-         '(hash verdict = nested set equality) rests on evaluation. Domain: NoSpoof, NoNumAlias jointly.',
+         '(hash verdict = nested set equality) needs an injective hasher (SHA-256 collision freedom). Domain: NoSpoof, NoNumAlias jointly.',
     technique='Lean 4 proof (mutual structural induction, fold invariants) + differential correspondence with observed pairing + independent reference equality')
 CLAIMED['C12'] = dict(
     text='PARTIAL. Lean 4 theorems: every normalisation option the two engines share is handed from DeepDiff to DeepHash (over the table regenerated from DEEPHASH_PARAM_KEYS and '
@@ -196,10 +201,11 @@ CLAIMED['C12'] = dict(
          '(HashSound) is proved for every hasher - lists, tuples, sets, dictionaries, leaves - on the domain NoNumAlias keys / distinct member hashes / canonical floats, so '
          '"empty order-ignoring diff => equal DeepHash digests" is a theorem with no assumption about the hash. ' + _IOMODEL + 'The equivalence DeepHash(a)[a] == DeepHash(b)[b] <=> DeepDiff(a, b, ignore_order=True) == {} itself is decided on the '
          'implementation for each shared option (string case / type, numeric type, significant digits f and e, truncate_datetime, default_timezone, use_enum_value), pairs of options, '
-         'both report_repetition settings, over structural pairs and pairs that differ only in what the option ignores; the direction equal digests => empty diff needs the injectivity of '
-         'the hash framing (C07) and is not proved.',
+         'both report_repetition settings, over structural pairs and pairs that differ only in what the option ignores. Without options the equivalence is a theorem of the model: '
+         'C12_equal_deephash_iff_empty_diff (every pairing, report_repetition setting, threshold; injective hasher with separator-free digests; NoSpoof, NoNumAlias, canonical floats) - the '
+         'direction equal digests => empty diff is the injectivity of the hash framing (C07).',
     design='5/C12',
-    note='Trusted: Lean kernel; SHA-256 (only as a parameter: the proved direction needs no injectivity). Options are not part of the ignore-order Lean model (observed only). '
+    note='Trusted: Lean kernel; SHA-256 (a parameter; the direction equal digests => empty diff assumes it injective). Options are not part of the ignore-order Lean model (observed only). '
          'Fixed in /repo: F28 (truncate_datetime was not forwarded). Known finding F18 (1 vs 1.0 through the shared hashes table).',
     technique='Lean 4 proof (table membership by decide; C05 induction) + evaluation of the equivalence under every shared option')
 CLAIMED['C17'] = dict(
